@@ -1,7 +1,7 @@
 (* C05 — Every call completes exactly once, whatever fails and whenever.
    Statements only; every proof is `exact <lemma>`. *)
 From Coq Require Import List NArith Arith Bool.
-From RPCX Require Import Client.ClientSM Client.ClientProofs Client.ClientLive.
+From RPCX Require Import Client.ClientSM Client.ClientProofs Client.ClientLive Client.ClientOutcome.
 From RPCX Require Client.Pending Client.PendingGen Client.PendingProofs Client.PendingGenProofs.
 Import ListNotations.
 
@@ -75,6 +75,51 @@ Theorem C05_no_call_is_left_in_the_table_of_a_client_that_shut_down : forall pro
   Pending.lock w = None -> Pending.shut w || Pending.closing w = true -> Pending.pend w = [].
 Proof. exact PendingGenProofs.client_goroutines_strand_no_call. Qed.
 
+(* (v) the outcome: in every reachable state every completion of every call carries the result that fits what
+   completed it - a response: its interpretation; the caller's own context: the context's error; the loss of the
+   connection: a connection error (the shutdown error when the client itself is closing); Close: shutdown; a refused
+   write: the write error; arguments that cannot be encoded: the encode error; a rejection: shutdown; the one-way
+   completion: the one-way result.  No failure is ever reported as something else. *)
+Theorem C05_outcomes_fit_their_cause : forall cs chan sched c x cz r,
+  wf_init cs -> nth_error (calls (run (init cs chan) sched)) c = Some x -> In (cz, r) (c_signals x) ->
+  match cz with
+  | ByResp _ => True
+  | ByCtx => r = RCtx
+  | ByConn => r = RConnErr \/ r = RShutdown
+  | ByClose => r = RShutdown
+  | ByWrite => r = RWriteErr
+  | ByEncode => r = REncErr
+  | Rejected => r = RShutdown
+  | ByOneway => r = ROneway
+  end.
+Proof. exact outcomes_fit_their_cause. Qed.
+
+(* ... so a call reported successful with a reply was answered by a response carrying its own sequence number whose
+   interpretation is that reply; *)
+Theorem C05_success_has_its_own_answer : forall cs chan sched c x cz p,
+  wf_init cs -> nth_error (calls (run (init cs chan) sched)) c = Some x -> In (cz, ROk p) (c_signals x) ->
+  exists f, cz = ByResp f /\ c_seq x = Some (f_seq f) /\ f_servermsg f = false /\ interp f x = ROk p.
+Proof. exact success_has_its_own_answer. Qed.
+
+(* ... and the success of a call without reply comes from the one-way path alone, which does something only for a call
+   whose own frame the transport has accepted (a failed encode or a refused write is never reported as success). *)
+Theorem C05_oneway_success_only_after_the_write : forall cs chan sched c,
+  wf_init cs ->
+  (forall x cz, nth_error (calls (run (init cs chan) sched)) c = Some x -> In (cz, ROneway) (c_signals x) -> cz = ByOneway) /\
+  (step (run (init cs chan) sched) (EOneway c) <> run (init cs chan) sched -> In c (wire_out (run (init cs chan) sched))).
+Proof.
+  intros cs chan sched c Hw. split.
+  - intros x cz. exact (oneway_completion_is_the_oneway_path cs chan sched c x cz Hw).
+  - exact (oneway_completes_only_what_was_written cs chan sched c Hw).
+Qed.
+
+Example C05_outcome_nonvacuous :
+  let cs := [new_call KGo true 0; new_call KGo true 0; new_call KCall false 0] in
+  map (fun x => c_signals x)
+      (calls (run (init cs false) [EReg 0; EWriteOk 0; EOneway 0; EReg 1; EWriteFail 1; EOneway 1; EReg 2; EEncFail 2]))
+  = [[(ByOneway, ROneway)]; [(ByWrite, RWriteErr)]; [(ByEncode, REncErr)]].
+Proof. vm_compute. reflexivity. Qed.
+
 Print Assumptions C05_never_signalled_twice.
 Print Assumptions C05_no_call_left_hanging.
 Print Assumptions C05_rejected_promptly.
@@ -82,3 +127,6 @@ Print Assumptions C05_invariants_reachable.
 Print Assumptions C05_the_client_paths_obey_the_discipline.
 Print Assumptions C05_no_call_completes_twice_under_any_interleaving.
 Print Assumptions C05_no_call_is_left_in_the_table_of_a_client_that_shut_down.
+Print Assumptions C05_outcomes_fit_their_cause.
+Print Assumptions C05_success_has_its_own_answer.
+Print Assumptions C05_oneway_success_only_after_the_write.
